@@ -56,7 +56,9 @@ def well_formed(ttn):
     for k, n in cp.nodes.items():
         if n.parent is not None:
             p = cp.nodes[n.parent]
-            if cp.tensors[k].shape[0] != cp.tensors[n.parent].shape[p.neighbour_index(k)]:
+            # position of the bond at the parent from the (parent, children) lists themselves
+            pos = (0 if p.parent is None else 1) + list(p.children).index(k)
+            if cp.tensors[k].shape[0] != cp.tensors[n.parent].shape[pos]:
                 return f"bond {n.parent}-{k}: different dimensions at the two ends"
     return None
 
@@ -90,6 +92,53 @@ def dense_by_tokens(ttn, tokens):
     if len(lab) > 52:
         return None
     return np.einsum(*args, out, optimize=True)
+
+
+# ---- read-only queries between the edits ("measure between steps") -------------------------------
+def run_query(ttn, op):
+    """["query", node, scope]: plain look-ups through the public read-only API on the LIVE network
+    (neighbour positions, bond / neighbour / parent-leg dimensions, recorded shape, open legs; scope
+    "all": the same for every node, and the bond dimensions of the whole network). Returns None or a description of
+    an answer that contradicts the public state; the reference is computed from the (parent, children)
+    lists and the stored array with its pending permutation, never from the looked-up value."""
+    _, n, scope = op
+    node = ttn.nodes[n]
+    raw = ttn._tensors.data[n]
+    perm = list(node.leg_permutation)
+    nbs = ([node.parent] if node.parent is not None else []) + list(node.children)
+    logical = [raw.shape[x] for x in perm]
+    if list(node.shape) != logical:
+        return f"query {n}: shape reports {list(node.shape)}, stored array in logical order has {logical}"
+    nv = len(nbs)
+    if list(node.open_legs) != list(range(nv, len(perm))) or node.nopen_legs() != len(perm) - nv:
+        return f"query {n}: open_legs {list(node.open_legs)} but the node has {nv} neighbours and {len(perm)} legs"
+    for pos, nb in enumerate(nbs):
+        got = node.neighbour_index(nb)
+        if got != pos:
+            return f"query {n}: neighbour_index({nb}) = {got}, but {nb} is at position {pos} of (parent, children) = {nbs}"
+        for what, got in (("neighbour_dim", node.neighbour_dim(nb)), ("bond_dim", ttn.bond_dim(n, nb))):
+            if got != logical[pos]:
+                return f"query {n}: {what}({nb}) = {got}, but the leg towards {nb} has dimension {logical[pos]}"
+    if node.parent is not None:
+        for what, got in (("parent_leg_dim", node.parent_leg_dim()), ("bond_dim(default)", ttn.bond_dim(n))):
+            if got != logical[0]:
+                return f"query {n}: {what} = {got}, but the parent leg has dimension {logical[0]}"
+    if scope == "all":
+        for k in list(ttn.nodes):
+            if k != n:
+                w = run_query(ttn, ["query", k, "node"])
+                if w:
+                    return w
+        got = ttn.bond_dims()
+        ref = {}
+        for k, nd in ttn.nodes.items():
+            if nd.parent is not None:
+                ref[(nd.parent, k)] = ttn._tensors.data[k].shape[list(nd.leg_permutation)[0]]
+        if dict(got) != ref:
+            return f"query: bond_dims() = {dict(got)}, the parent legs of the stored arrays give {ref}"
+        if len(ttn.nodes) > 1 and ttn.max_bond_dim() != max(ref.values()):
+            return f"query: max_bond_dim() = {ttn.max_bond_dim()}, largest bond is {max(ref.values())}"
+    return None
 
 
 # ---- operation generator --------------------------------------------------------------------------
@@ -150,13 +199,18 @@ def gen_build_on(rng, parents, open_dims, bond, shuffle=True):
     return ops
 
 
-def gen_edit(rng, snap, fresh, malformed=False):
-    """one edit op generated from the current observable structure"""
+def gen_edit(rng, snap, fresh, malformed=False, queries=False):
+    """one edit op generated from the current observable structure (queries=True: also read-only
+    ["query", node, scope] operations, which only C02 executes)"""
     nodes = {n[0]: n for n in snap["nodes"]}
     ids = list(nodes)
     edges = [(n[1], n[0]) for n in snap["nodes"] if n[1] is not None]
     kinds = ["contract"] * 4 + ["split"] * 5 + ["insert_identity", "rename", "replace_tensor", "access", "access"]
+    if queries:
+        kinds = kinds + ["query"] * 4
     k = rng.choice(kinds)
+    if k == "query":
+        return ["query", rng.choice(ids), rng.choice(["node", "node", "all"])]
     if k == "contract" and edges:
         p, c = rng.choice(edges)
         a, b = (p, c) if rng.random() < 0.5 else (c, p)
@@ -164,6 +218,8 @@ def gen_edit(rng, snap, fresh, malformed=False):
             a, b = rng.sample(ids, 2)          # mostly non-neighbours: both sides must reject
         # an identifier in use by a third node is outside the documented precondition (not generated)
         new = rng.choice([None, fresh(), a, b])
+        if new is None and not malformed and (a + "contr" + b) in set(ids) - {a, b}:
+            new = fresh()            # the default identifier is in use by a third node (possible once identifiers are recycled)
         return ["contract", a, b, new]
     if k == "split":
         n = rng.choice(ids)
@@ -202,6 +258,18 @@ def gen_edit(rng, snap, fresh, malformed=False):
         if kind == 2:
             oid = oid or fresh()
             iid = iid or fresh()
+        others = set(ids) - {n}
+        for _ in range(10):
+            # identifiers (given or default) in use by a third node or equal to each other are outside the documented
+            # precondition; this can only happen once freed identifiers are recycled by `fresh`
+            oid2 = oid if oid is not None else "out_of_" + n
+            iid2 = iid if iid is not None else "in_of_" + n
+            if oid2 != iid2 and oid2 not in others and iid2 not in others:
+                break
+            if oid2 in others or oid2 == iid2:
+                oid = fresh()
+            if iid2 in others:
+                iid = fresh()
         # bond for an explicit replacement: min(m, n) (+1: zero-padded)
         cur_shape = [shape[x] for x in perm]
         lv = lambda d: ([0] if d["parent"] is not None else []) + [(1 if par is not None else 0) + ch.index(c) for c in d["children"]] + d["open"]
@@ -241,12 +309,104 @@ def gen_edit(rng, snap, fresh, malformed=False):
     return ["access", rng.choice(ids)]
 
 
+def applicable(op, snap):
+    """is `op` a documented-valid operation in the observed structure `snap`? (what gen_edit guarantees
+    for its valid stream; used by the shrinker so that dropping operations never turns a later operation
+    into an invalid one, e.g. an explicit replacement whose bond became too small for an exact factorisation)"""
+    nodes = {n[0]: n for n in snap["nodes"]}
+    ids = set(nodes)
+    k = op[0]
+    try:
+        if k in ("access", "query"):
+            return op[1] in ids
+        if k == "contract":
+            _, a, b, new = op
+            if a not in ids or b not in ids or a == b:
+                return False
+            if nodes[a][1] != b and nodes[b][1] != a:
+                return False
+            return new is None or new not in ids - {a, b}
+        if k == "rename":
+            _, new, old = op
+            return old in ids and (new == old or new not in ids)
+        if k == "insert_identity":
+            _, c, par, new = op
+            return c in ids and nodes[c][1] == par and new not in ids
+        if k == "replace_tensor":
+            _, n, q, pinv = op
+            if n not in ids:
+                return False
+            nl = len(nodes[n][3])
+            if sorted(q) != list(range(nl)):
+                return False
+            if pinv is None:
+                return list(q) == list(range(nl))
+            return list(pinv) == [list(q).index(x) for x in range(nl)]
+        if k == "split":
+            _, n, o, i, oid, iid, kind, mode, bond = op
+            if n not in ids:
+                return False
+            _, par, ch, perm, shape, _ = nodes[n]
+            nvirt = (par is not None) + len(ch)
+            if sorted(o["children"] + i["children"]) != sorted(ch):
+                return False
+            if sorted(o["open"] + i["open"]) != list(range(nvirt, len(perm))):
+                return False
+            tops = [d for d in (o, i) if d["parent"] is not None or d["root"]]
+            if len(tops) != 1:
+                return False
+            if par is None and not (tops[0]["root"] and tops[0]["parent"] is None):
+                return False
+            if par is not None and not (tops[0]["parent"] == par and not tops[0]["root"]):
+                return False
+            oid2 = oid if oid is not None else "out_of_" + n
+            iid2 = iid if iid is not None else "in_of_" + n
+            if oid2 == iid2 or oid2 in ids - {n} or iid2 in ids - {n}:
+                return False
+            cur = [shape[x] for x in perm]
+            lv = lambda d: ([0] if d["parent"] is not None else []) + [(1 if par is not None else 0) + ch.index(c) for c in d["children"]] + d["open"]
+            m_ = int(np.prod([cur[x] for x in lv(o)])) if lv(o) else 1
+            n_ = int(np.prod([cur[x] for x in lv(i)])) if lv(i) else 1
+            if kind == 2 and bond < min(m_, n_):
+                return False
+            if kind == 0 and mode == "keep" and not lv(i):
+                return False
+            if kind == 0 and mode == "full" and m_ > 256:
+                return False
+            return True
+        return k in ("add_root", "add_child")
+    except Exception:  # noqa
+        return False
+
+
+def failure_kind(what):
+    """coarse class of an oracle message (the shrinker keeps the class of the original failure)"""
+    what = str(what)
+    if "query" in what:
+        return "query"
+    if what.startswith("valid operation"):
+        return "rejected"
+    if what.startswith("exception"):
+        return "exception"
+    if "full contraction changed" in what or "open legs not where" in what or "documented leg order failed" in what:
+        return "value"
+    return "well-formed"
+
+
 class C02(Prop):
     id = "C02"
     rule = ("random trees (1-7 nodes) built with shuffled leg orders and 0/1/2+ open legs, then 1-12 random edit operations "
             "(contract with fresh/reused/default identifier, QR split in three modes, untruncated SVD split, explicit replacement, "
             "identity insertion, rename, tensor replacement with a permutation, plain access) generated from the observed structure, "
-            "plus a malformed stream both sides must reject; non-trivial = at least two nodes and two accepted edit operations")
+            "plus a malformed stream both sides must reject; non-trivial = at least two nodes and two accepted edit operations. "
+            "History / configuration families switched on per case (see distribution): `queries` = read-only look-ups on the LIVE network between the "
+            "edits (neighbour positions, bond / neighbour / parent-leg dimensions, shapes, open legs, bond_dims; every answer judged against the "
+            "(parent, children) lists and the stored arrays, state must stay untouched; not state transitions, so the model skips them); `recycle` = a "
+            "'fresh' identifier is with probability 0.4 one that was used EARLIER in the history and has been freed since (contract / split / rename); "
+            "`exchange` = the identifiers of 2-3 nodes (mostly siblings) are exchanged through a temporary identifier, with look-ups in between; "
+            "`mixed` = every tensor handed over is int64 / float64 / complex128 at random and explicit-replacement factors carry a random complex "
+            "unitary gauge (A.U, U^dagger.B), so node and factor data types differ. The shrinker only drops operations when every remaining one is "
+            "still documented-valid where it is applied and the failure stays of the same class.")
     clauses = [
         ("F", "store invariant wfb (one root, symmetric links, equal key sets, permutations, recorded shapes = raw tensor dims, edge-wire consistency, "
               "no other sharing, acyclic) is preserved by access, contract (fresh/reused identifier), split (QR 3 modes / SVD / replacement, any admissible "
@@ -265,6 +425,8 @@ class C02(Prop):
               "on every reachable state, by vm_compute"),
         ("O", "kernel factors (QR/SVD/explicit) are fresh atoms whose product over the new bond equals the input; validated numerically through the dense oracle"),
         ("V", "model = code: exact step-by-step correspondence (structure, dict orders, leg permutations, shapes, every tensor against its diagram)"),
+        ("V", "read-only look-ups between edits answer according to the public state and leave it untouched; mixed data types (int64/float64/complex128 "
+              "nodes, complex-gauged replacement factors) keep the contraction: judged by the oracle only (the model is data-type agnostic)"),
     ]
     trusted_base = ["NumPy transpose/tensordot/reshape implement the diagram operations (exercised exactly with integer-valued tensors)",
                     "LAPACK QR/SVD: factors contract back to the input (validated numerically at every split)"]
@@ -275,7 +437,10 @@ class C02(Prop):
         cases = []
         for j in range(n):
             cases.append({"seed": rng.randrange(10 ** 9), "nnodes": rng.choice([1, 2, 2, 3, 3, 4, 4, 5, 6, 7]),
-                          "nedits": rng.randrange(1, 13), "malformed": (j % 6 == 5), "ints": (j % 3 != 0)})
+                          "nedits": rng.randrange(1, 13), "malformed": (j % 6 == 5), "ints": (j % 3 != 0),
+                          # history / configuration families (absent = off, as in older replay files)
+                          "queries": j % 2 == 1, "recycle": j % 4 in (1, 2), "exchange": j % 4 == 3 or j % 8 == 1,
+                          "mixed": j % 8 in (0, 5)})
         return cases
 
     def nontrivial(self, case):
@@ -286,18 +451,57 @@ class C02(Prop):
         for x in cases:
             c[f"nodes={x['nnodes']}"] += 1
             c["malformed" if x["malformed"] else "valid"] += 1
+            fam = [f for f in ("queries", "recycle", "exchange", "mixed") if x.get(f)]
+            for f in fam:
+                c["family:" + f] += 1
+            if not fam:
+                c["family:plain"] += 1
         c.update(getattr(self, "_opstats", {}))
         return dict(c)
 
     # -------------------------------------------------------------------------------------------
     def _run_case(self, case):
         rng = random.Random(case["seed"])
-        drv = Driver(nprs=np.random.RandomState(case["seed"] % (2 ** 31)), ints=2 if case.get("ints") else None)
+        kw = {"mixed": True} if case.get("mixed") else {}
+        drv = Driver(nprs=np.random.RandomState(case["seed"] % (2 ** 31)), ints=2 if case.get("ints") else None, **kw)
         counter = [0]
+        ever = set()          # every identifier that was in the network at some time
+        handed = set()        # identifiers handed out for the operation being generated
 
         def fresh():
+            # an identifier that is not in use: brand new, or (recycle) one that was used EARLIER in
+            # this history and has been freed since by a contraction, split or identifier change
+            if case.get("recycle") and rng.random() < 0.4:
+                free = sorted(ever - set(drv.ttn.nodes) - handed)
+                if free:
+                    x = rng.choice(free)
+                    handed.add(x)
+                    return x
             counter[0] += 1
             return f"x{counter[0]}"
+
+        def gen_exchange():
+            # exchange the identifiers of 2-3 nodes (mostly siblings) through a temporary identifier:
+            # a0 -> T, a1 -> a0, ..., T -> a_last; with queries: look-ups in between
+            nodes = drv.ttn.nodes
+            fams = [list(nd.children) for nd in nodes.values() if len(nd.children) >= 2]
+            pool = rng.choice(fams) if fams and rng.random() < 0.7 else list(nodes)
+            if len(pool) < 2:
+                return []
+            cyc = rng.sample(pool, min(len(pool), rng.choice([2, 2, 3])))
+            counter[0] += 1
+            tmp = f"x{counter[0]}"
+            seq = [["rename", tmp, cyc[0]]] + [["rename", cyc[j - 1], cyc[j]] for j in range(1, len(cyc))] + [["rename", cyc[-1], tmp]]
+            if case.get("queries"):
+                out = []
+                for o in seq + [None]:
+                    if rng.random() < 0.5:
+                        out.append(["query", rng.choice(list(nodes)), rng.choice(["node", "all"])])
+                    if o is not None:
+                        out.append(o)
+                seq = out
+            return seq
+        pending = []
         ops = case.get("ops")
         replay = ops is not None
         steps = []
@@ -308,17 +512,30 @@ class C02(Prop):
         tokens = None
         dense0 = None
         viol = None
+        inapplicable = None
         k = 0
         nedits = 0
         while True:
             if k < len(ops):
                 op = ops[k]
+                k += 1
+            elif not replay and pending:
+                op = pending.pop(0)
+                if op[0] == "query" and op[1] not in drv.ttn.nodes:
+                    continue
+                nedits += 1
             elif not replay and nedits < case["nedits"]:
-                op = gen_edit(rng, snapshot(drv.ttn), fresh, malformed=case["malformed"] and rng.random() < 0.4)
+                ever.update(drv.ttn.nodes)
+                handed.clear()
+                if case.get("exchange") and rng.random() < 0.3:
+                    pending = gen_exchange()
+                    if pending:
+                        continue
+                op = gen_edit(rng, snapshot(drv.ttn), fresh, malformed=case["malformed"] and rng.random() < 0.4,
+                              **({"queries": True} if case.get("queries") else {}))
                 nedits += 1
             else:
                 break
-            k += 1
             if len(applied) == build_len and tokens is None:
                 tokens = {nid: [(nid, j) for j in range(nd.nopen_legs())] for nid, nd in drv.ttn.nodes.items()}
                 try:
@@ -326,6 +543,32 @@ class C02(Prop):
                 except Exception as e:  # noqa
                     viol = viol or f"initial network not contractible: {e}"
             pre = snapshot(drv.ttn)
+            if inapplicable is None and len(applied) >= build_len and not case.get("malformed") and not applicable(op, pre):
+                inapplicable = op
+            if op[0] == "query":
+                # read-only look-ups on the live network: answers judged against the public state, and
+                # the state (structure, stored arrays) must be untouched afterwards
+                applied.append(op)
+                self._opstats["query:" + op[2]] += 1
+                if op[1] not in drv.ttn.nodes:
+                    steps.append({"ok": False, "err": "no such node", "query": True})
+                    continue
+                before = {kk: (id(v), np.array(v)) for kk, v in drv.ttn._tensors.data.items()}
+                try:
+                    w = run_query(drv.ttn, op)
+                except Exception as e:  # noqa
+                    w = f"{op} raised {type(e).__name__}: {e}"
+                if w is None and snapshot(drv.ttn) != pre:
+                    w = f"{op} changed the structure"
+                if w is None:
+                    for kk, v in drv.ttn._tensors.data.items():
+                        if kk not in before or id(v) != before[kk][0] or not np.array_equal(v, before[kk][1]):
+                            w = f"{op} changed the stored tensor of {kk}"
+                            break
+                if w and viol is None and len(applied) > build_len:
+                    viol = f"after {len(applied) - build_len - 1} edit operations: {w}"
+                steps.append({"ok": True, "err": None, "query": True})
+                continue
             ok, err = drv.apply(op)
             applied.append(op)
             if ok and tokens is not None:
@@ -348,7 +591,7 @@ class C02(Prop):
                                 viol = f"after {op}: full contraction changed (max diff {float(np.max(np.abs(d - dense0))):.3e})"
                     except Exception as e:  # noqa
                         viol = f"after {op}: contraction with the documented leg order failed: {e}"
-        return {"ops": applied, "steps": steps, "atoms": drv.atoms, "viol": viol, "build_len": build_len}
+        return {"ops": applied, "steps": steps, "atoms": drv.atoms, "viol": viol, "build_len": build_len, "inapplicable": inapplicable}
 
     @staticmethod
     def _tokens_after(op, tokens, pre):
@@ -376,6 +619,11 @@ class C02(Prop):
             pass
         return t
 
+    @staticmethod
+    def _mops(ob):
+        """the operations the Coq model runs: read-only queries are not state transitions"""
+        return [o for o in ob["ops"] if o[0] != "query"]
+
     def impl(self, ctx, cases):
         self._opstats = Counter()
         out = []
@@ -393,14 +641,14 @@ class C02(Prop):
         for ob in obs:
             idm = IdMap()
             self._idmaps.append(idm)
-            exprs.append(wmodel.coq_run_obs(ob["ops"], idm))
+            exprs.append(wmodel.coq_run_obs(self._mops(ob), idm))
         vals = coq_eval(ctx, wmodel.IMPORTS, exprs, shard=12, scope="nat_scope", timeout=600)
         # instance obligations: the hypotheses of the universal theorems (C02_run_wfb_empty,
         # C02_step_preserves_wfb) hold for the explored sequence, and the executable invariant
         # wfb is true on every state from the first add_root on
         pre = []
         for ob, idm in zip(obs, self._idmaps):
-            body = "[" + "; ".join("(" + wmodel.coq_op(o, idm) + ")" for o in ob["ops"]) + "]"
+            body = "[" + "; ".join("(" + wmodel.coq_op(o, idm) + ")" for o in self._mops(ob)) + "]"
             pre.append(f"(ops_okb empty_store {body}, map2b (run_wfb empty_store {body}) (run_wfsb empty_store {body}))")
         pvals = coq_eval(ctx, wmodel.IMPORTS.replace("TTN.Canon", "TTN.Canon TTN.Inv TTN.InvRun TTN.InvSem") + " Definition map2b (a b : list bool) := map (fun p => andb (fst p) (snd p)) (combine a b).", pre, shard=25, scope="nat_scope", timeout=600)
         self._inst = [0, 0, []]
@@ -410,7 +658,7 @@ class C02(Prop):
                 self._inst[2].append(f"seed {case['seed']}: cannot evaluate wfb: {pv}")
                 continue
             okb, wl = pv
-            accepted = [st["ok"] for st in ob["steps"]]
+            accepted = [st["ok"] for st in ob["steps"] if not st.get("query")]
             self._inst[0] += 1
             if not all(wl[1:]) if len(wl) > 1 else False:
                 self._inst[2].append(f"seed {case['seed']}: executable invariant wfb false on a reachable state {wl}")
@@ -429,10 +677,12 @@ class C02(Prop):
     def compare(self, case, ob, mo):
         if "exception" in ob:
             return f"harness/implementation exception: {ob['exception']}"
-        if len(mo) != len(ob["steps"]):
+        msteps = [st for st in ob["steps"] if not st.get("query")]
+        mops = self._mops(ob)
+        if len(mo) != len(msteps):
             return "step count differs"
-        for j, (st, (mok, mobs)) in enumerate(zip(ob["steps"], mo)):
-            op = ob["ops"][j]
+        for j, (st, (mok, mobs)) in enumerate(zip(msteps, mo)):
+            op = mops[j]
             if st["ok"] != mok:
                 return f"step {j} {op}: implementation {'accepted' if st['ok'] else 'rejected (' + str(st['err']) + ')'} but model {'accepted' if mok else 'rejected'}"
             d = wmodel.compare_snapshot(st["snap"], mobs)
@@ -461,7 +711,7 @@ class C02(Prop):
         if not case.get("malformed"):
             # a documented-valid operation must not be rejected
             for op, st in zip(ob["ops"], ob["steps"]):
-                if not st["ok"]:
+                if not st["ok"] and not st.get("query"):
                     return f"valid operation {op} rejected: {st['err']}"
         return None
 
@@ -481,14 +731,22 @@ class C02(Prop):
         base = {k: v for k, v in case.items() if k != "ops"}
         nb = ob.get("build_len", 0)
 
+        kind0 = failure_kind(self.oracle(case, ob))
+
         def fails(o):
+            # still failing in the same way, and every operation still documented-valid where it is applied
             try:
-                return pred(dict(base, ops=o))
+                c = dict(base, ops=o)
+                ob2 = self._run_case(c)
+                if ob2.get("inapplicable") is not None:
+                    return False
+                w = self.oracle(c, ob2)
+                return bool(w) and failure_kind(w) == kind0 and pred(c)
             except Exception:
                 return False
         cur = list(ops)
         if not fails(cur):
-            return case
+            return dict(base, ops=cur) if pred(dict(base, ops=cur)) else case
         lo = nb + 1
         for n in range(lo, len(cur) + 1):           # shortest failing prefix
             if fails(cur[:n]):
